@@ -92,6 +92,21 @@ type Case struct {
 	Lease      int
 	LeaseRef   int  // index into refNames
 	LeaseHash  int  // 0: the server's current value of LeaseRef, else a commit index (likely a mismatch)
+	// Second is what another writer pushed to the server after the client last looked at it:
+	// commits that exist only on the server. The client's remote-tracking refs (if any) still
+	// show the state before. Absent in older replay files.
+	Second []Advance `json:",omitempty"`
+	// Untracked is a bit mask over the branch names: the client has no remote-tracking ref for
+	// those branches (it never fetched them), so whatever the server holds there is in the
+	// client's object store only if the client's own references reach it.
+	Untracked int `json:",omitempty"`
+}
+
+// Advance moves one server reference to a chain of new commits nobody but the server has.
+type Advance struct {
+	Name int // index into refNames (modulo)
+	N    int // chain length - 1 (modulo 2)
+	Onto int // 0: on top of the reference's value so far (the other writer fast-forwarded it); k > 0: on top of commit k-1 (it rewound or created the reference)
 }
 
 func genPick(t *rapid.T) RefPick {
@@ -116,6 +131,42 @@ func gen(t *rapid.T, r *evid.Recorder) Case {
 	for i, n := 0, rapid.IntRange(0, 2).Draw(t, "nstale"); i < n; i++ {
 		c.Stale = append(c.Stale, genPick(t))
 	}
+	// a second writer and/or branches the client never fetched: the server's value of a pushed
+	// reference is then a commit the pushing repository does not have
+	var mine, mineBranches []int
+	for _, p := range c.Local {
+		n := mod(p.Name, len(refNames))
+		mine = append(mine, n)
+		if n < nBranches {
+			mineBranches = append(mineBranches, n)
+		}
+	}
+	if len(mineBranches) > 0 { // an existing tag is never updated without force, whatever it points at: prefer branches
+		mine = mineBranches
+	}
+	if rapid.IntRange(0, 1).Draw(t, "secondwriter") == 0 {
+		for i, n := 0, rapid.IntRange(1, 2).Draw(t, "nsecond"); i < n; i++ {
+			a := Advance{Name: rapid.IntRange(0, len(refNames)-1).Draw(t, "advname"), N: rapid.IntRange(0, 1).Draw(t, "advlen")}
+			switch k := rapid.IntRange(0, 5).Draw(t, "advwhich"); {
+			case k <= 1: // a reference the client is going to push from
+				a.Name = rapid.SampledFrom(mine).Draw(t, "advmine")
+			case k <= 3 && len(c.Remote) > 0: // a reference the server had when the client last looked (its tracking ref goes stale)
+				a.Name = mod(rapid.SampledFrom(c.Remote).Draw(t, "advtheirs").Name, len(refNames))
+			case k == 4: // the destinations the exact refspecs name
+				a.Name = rapid.SampledFrom([]int{0, 0, 1, 3}).Draw(t, "advcommon")
+			}
+			if rapid.IntRange(0, 2).Draw(t, "advrewind") == 0 {
+				a.Onto = 1 + rapid.IntRange(0, 9).Draw(t, "advonto")
+			}
+			c.Second = append(c.Second, a)
+		}
+	}
+	switch rapid.IntRange(0, 5).Draw(t, "untracked") {
+	case 0:
+		c.Untracked = 1<<nBranches - 1
+	case 1:
+		c.Untracked = rapid.IntRange(1, 1<<nBranches-1).Draw(t, "untrackedmask")
+	}
 	c.Pack = rapid.IntRange(0, 3).Draw(t, "pack") == 0
 	c.Pairing = rapid.IntRange(0, 2).Draw(t, "pairing")
 	for i, n := 0, rapid.IntRange(1, 2).Draw(t, "nspecs"); i < n; i++ {
@@ -125,7 +176,13 @@ func gen(t *rapid.T, r *evid.Recorder) Case {
 	c.Prune = rapid.IntRange(0, 4).Draw(t, "prune") == 0
 	c.FollowTags = rapid.IntRange(0, 4).Draw(t, "followtags") == 0
 	c.Atomic = rapid.IntRange(0, 5).Draw(t, "atomic") == 0
-	if rapid.IntRange(0, 1).Draw(t, "leased") == 0 {
+	// a lease needs a remote-tracking ref to compare with; where another writer has been at work
+	// the plain fast-forward rule is the more interesting gate, so leases are drawn less often there
+	leaseOneIn := 2
+	if len(c.Second) > 0 || c.Untracked != 0 {
+		leaseOneIn = 3
+	}
+	if rapid.IntRange(0, leaseOneIn-1).Draw(t, "leased") == 0 {
 		c.Lease = rapid.IntRange(1, 3).Draw(t, "lease")
 		c.LeaseRef = rapid.IntRange(0, nBranches-1).Draw(t, "leaseref")
 		// mostly lease a branch the client actually has, so the lease meets a pushed reference
@@ -316,7 +373,8 @@ func check(c Case) evid.Result {
 	b := dagx.Build(c.Spec)
 	local := resolve(b, c.Local)
 	remote := resolve(b, c.Remote)
-	// remote-tracking refs: mirror of the server's branches, except the stale ones
+	// remote-tracking refs: mirror of the server's branches as the client last saw them, except
+	// the stale ones and those of branches it never fetched
 	tracking := map[string]string{}
 	for n, id := range remote {
 		if strings.HasPrefix(n, "refs/heads/") {
@@ -327,6 +385,44 @@ func check(c Case) evid.Result {
 		if strings.HasPrefix(n, "refs/heads/") {
 			tracking["refs/remotes/origin/"+strings.TrimPrefix(n, "refs/heads/")] = id
 		}
+	}
+	for i := 0; i < nBranches; i++ {
+		if c.Untracked>>i&1 == 1 {
+			delete(tracking, "refs/remotes/origin/"+strings.TrimPrefix(refNames[i], "refs/heads/"))
+		}
+	}
+	// the second writer: server-only commits on top of what the client last saw (or elsewhere)
+	server := map[string]string{}
+	for k, v := range remote {
+		server[k] = v
+	}
+	var extraObjs []dagx.Obj
+	var extraRoots []string
+	extraTree := map[string]string{}
+	treeOf := func(id string) string {
+		if t, ok := extraTree[id]; ok {
+			return t
+		}
+		if i, ok := b.Index[id]; ok && b.Objs[i].Type == "commit" {
+			return b.Objs[b.Objs[i].Kids[0]].ID
+		}
+		return ""
+	}
+	for i, a := range c.Second {
+		name := refNames[mod(a.Name, len(refNames))]
+		parent := server[name]
+		if a.Onto > 0 || treeOf(parent) == "" {
+			parent = b.Objs[b.Commits[mod(a.Onto-1, len(b.Commits))]].ID
+			extraRoots = append(extraRoots, parent)
+		}
+		tree := treeOf(parent)
+		for j := 0; j <= mod(a.N, 2); j++ {
+			o := dagx.ExtraCommit(parent, tree, 10*i+j+1)
+			extraObjs = append(extraObjs, o)
+			extraTree[o.ID] = tree
+			parent = o.ID
+		}
+		server[name] = parent
 	}
 	var specs []refspec
 	var specStrs []string
@@ -343,7 +439,7 @@ func check(c Case) evid.Result {
 	leaseHash := ""
 	if c.Lease == leaseRefHash {
 		if c.LeaseHash == 0 {
-			leaseHash = remote[leaseName] // may be "" when the ref does not exist: then the lease is by tracking ref
+			leaseHash = server[leaseName] // may be "" when the ref does not exist: then the lease is by tracking ref
 		} else {
 			leaseHash = b.Objs[b.Commits[mod(c.LeaseHash, len(b.Commits))]].ID
 		}
@@ -356,7 +452,13 @@ func check(c Case) evid.Result {
 	daemons := &dagx.Daemons{}
 	defer daemons.Close()
 	srv, cli := filepath.Join(scratch, "srv.git"), filepath.Join(scratch, "client.git")
-	mkRepo(srv, b, remote, "refs/heads/main", nil)
+	mkRepo(srv, b, remote, "refs/heads/main", extraRoots)
+	if len(extraObjs) > 0 {
+		for _, o := range extraObjs {
+			dagx.WriteObj(srv, o)
+		}
+		dagx.SetRefs(srv, server, "refs/heads/main")
+	}
 	gitx.Must(srv, "config", "receive.denyCurrentBranch", "ignore")
 	if c.Pack {
 		gitx.Must(srv, "repack", "-adq")
@@ -434,6 +536,12 @@ func check(c Case) evid.Result {
 		}
 	}
 	res.NonTrivial = nonFFCand || delCand
+	if len(c.Second) > 0 {
+		res.Labels = append(res.Labels, "server-has-second-writer-commits")
+	}
+	if c.Untracked != 0 {
+		res.Labels = append(res.Labels, "client-lacks-some-tracking-refs")
+	}
 	if nonFFCand {
 		res.Labels = append(res.Labels, "candidate:non-fast-forward")
 	}
@@ -466,6 +574,50 @@ func check(c Case) evid.Result {
 			return track()
 		}
 		return "", false
+	}
+
+	// which candidates meet a server value the pushing repository does not have
+	{
+		var roots []int
+		for _, id := range clientRefs {
+			roots = append(roots, b.Index[id])
+		}
+		have := b.Reach(roots, nil)
+		absent := func(id string) bool {
+			i, ok := b.Index[id]
+			return !ok || !have[i]
+		}
+		seen := map[string]bool{}
+		for _, n := range sortedCandKeys(cands) {
+			if before[n] == "" || !absent(before[n]) {
+				continue
+			}
+			_, covered := leaseCovers(n)
+			tn := "refs/remotes/origin/" + strings.TrimPrefix(n, "refs/heads/")
+			track := "tracking-stale"
+			if !strings.HasPrefix(n, "refs/heads/") {
+				track = "not-a-branch"
+			} else if _, ok := tracking[tn]; !ok {
+				track = "tracking-missing"
+			}
+			for _, k := range cands[n] {
+				l := "candidate:remote-value-absent-locally/"
+				switch {
+				case k.new == "":
+					l += "delete"
+				case covered:
+					l += "leased"
+				case k.forced:
+					l += "forced"
+				default:
+					l += "unforced"
+				}
+				if l += "/" + track; !seen[l] {
+					seen[l] = true
+					res.Labels = append(res.Labels, l)
+				}
+			}
+		}
 	}
 
 	// ---- the push
